@@ -20,6 +20,7 @@ type cgCase struct {
 	Ty      string              `json:"ty"`
 	Wrap    string              `json:"wrap"`
 	Where   string              `json:"where"`
+	Layout  string              `json:"layout"`
 	Target  string              `json:"target"`
 	Members []string            `json:"members"`
 	Decl    map[string][]string `json:"decl"`
@@ -45,12 +46,16 @@ func cgBuild(id int, raw json.RawMessage) *Job {
 	for _, c := range tc.Shared {
 		isShared[c] = true
 	}
-	// classes are split over two files: KA and KB in types1.lua, KC in types2.lua
-	text := map[string]*strings.Builder{"types1.lua": {}, "types2.lua": {}}
+	// the class declarations are spread over files as the layout says (default: KA and KB in types1.lua, KC in types2.lua)
+	text := map[string]*strings.Builder{"types1.lua": {}, "types2.lua": {}, "types3.lua": {}}
 	lineNo := map[string]int{}
 	for _, c := range classes {
 		f := "types1.lua"
-		if c == "KC" {
+		switch {
+		case tc.Layout == "ABC":
+		case tc.Layout == "A|B|C" && c == "KB":
+			f = "types3.lua"
+		case c == "KC":
 			f = "types2.lua"
 		}
 		sb := text[f]
@@ -74,6 +79,7 @@ func cgBuild(id int, raw json.RawMessage) *Job {
 	}
 	d.files["types1.lua"] = text["types1.lua"].String()
 	d.files["types2.lua"] = text["types2.lua"].String()
+	d.files["types3.lua"] = text["types3.lua"].String()
 	var mb strings.Builder
 	ml := 0
 	// wrapT writes the wrapper around a type name
@@ -172,7 +178,7 @@ func cgBuild(id int, raw json.RawMessage) *Job {
 func cgJudge(c *Ctx, j *Job, res *proto.Result) {
 	d := j.Data.(*cgData)
 	c.Rep.Eval(string(j.Raw))
-	desc0 := fmt.Sprintf("parents=%v shared=%v alias=%v type=%s/%s(wrapper on %s)", d.tc.Parents, d.tc.Shared, d.tc.Alias, d.tc.Ty, d.tc.Wrap, d.tc.Where)
+	desc0 := fmt.Sprintf("parents=%v shared=%v alias=%v type=%s/%s(wrapper on %s) files=%s", d.tc.Parents, d.tc.Shared, d.tc.Alias, d.tc.Ty, d.tc.Wrap, d.tc.Where, d.tc.Layout)
 	if res.Crash != "" || res.Hang {
 		desc := fmt.Sprintf("server died or hung on an annotation hierarchy (%s): crash=%q hang=%v at step %d", desc0, res.Crash, res.Hang, res.AtStep)
 		if surveyMode {
@@ -233,7 +239,7 @@ func cgJudge(c *Ctx, j *Job, res *proto.Result) {
 		return
 	}
 	sort.Strings(prob)
-	desc := fmt.Sprintf("%s (members by the reference closure: %v): %s\n-- types1.lua\n%s-- types2.lua\n%s-- main.lua\n%s", desc0, d.tc.Members, strings.Join(prob, "; "), d.files["types1.lua"], d.files["types2.lua"], d.files["main.lua"])
+	desc := fmt.Sprintf("%s (members by the reference closure: %v): %s\n-- types1.lua\n%s-- types2.lua\n%s-- types3.lua\n%s-- main.lua\n%s", desc0, d.tc.Members, strings.Join(prob, "; "), d.files["types1.lua"], d.files["types2.lua"], d.files["types3.lua"], d.files["main.lua"])
 	if surveyMode {
 		for _, p := range prob {
 			sv.add(d.tc.Wrap+" "+firstWords(p, 3), desc)
@@ -252,7 +258,7 @@ func firstWords(s string, n int) string {
 }
 
 func checkC15(c *Ctx) {
-	c.Rep.Rule = "ClassGraph.tla enumerates annotation hierarchies over three classes (every parent relation incl. self-loops, cycles, diamonds; a shared field name declared by any subset of classes; two aliases incl. alias chains and alias cycles) and a variable typed with a class or alias, plain, as array element or as map value (the wrapper written on the ---@type line or inside the alias that names the class); Members and Declarers are the reference closure. Each case is rendered (classes split over two files), member completion after typing 'v.' (v[1]. / v[\"k\"].) and go-to-definition on every field name are requested from a fresh real server: labels must be exactly Members, definitions must land on the ---@field line of a declaring class (nothing for non-members), and nothing may crash or hang; distinct = distinct hierarchies x queries"
+	c.Rep.Rule = "ClassGraph.tla enumerates annotation hierarchies over three classes (every parent relation incl. self-loops, cycles, diamonds; a shared field name declared by any subset of classes; two aliases incl. alias chains and alias cycles) and a variable typed with a class or alias, plain, as array element or as map value (the wrapper written on the ---@type line or inside the alias that names the class); Members and Declarers are the reference closure. Each case is rendered (class declarations in one, two or three files), member completion after typing 'v.' (v[1]. / v[\"k\"].) and go-to-definition on every field name are requested from a fresh real server: labels must be exactly Members, definitions must land on the ---@field line of a declaring class (nothing for non-members), and nothing may crash or hang; distinct = distinct hierarchies x queries"
 	c.Rep.Assumptions = []string{
 		"an alias cycle denotes no type (no members)",
 		"when several reachable classes declare the shared field, any of them is an acceptable definition target",
